@@ -6,3 +6,6 @@ func raceDisable() {}
 func raceEnable()  {}
 
 const RaceBuild = false
+
+func RaceDisable() {}
+func RaceEnable()  {}
